@@ -145,8 +145,10 @@ def build_corpus(tier, rng):
         cands.append(("random", G.string_enum(rng, allow_default=False, allow_dw=False, allow_fields=False, custom_err=False)))
     infos = G.classify(ID, [it for _, it in cands])
     reals = G.real_structure(ID, [it for _, it in cands])
+    # the model's description of the same code: where the two differ, a search for a distinguishing input follows (S.mismatch_search)
+    mstructs = [r[0] for r in G.model_query(ID, [it for _, it in cands], [("struct", ["EnumString"])])] if any(reals) else [None] * len(cands)
     rejected = 0
-    for (fam, it), info, real in zip(cands, infos, reals):
+    for (fam, it), info, real, mstruct in zip(cands, infos, reals, mstructs):
         if getattr(it, "overlap_family", False):
             if info is None:
                 continue
@@ -159,7 +161,7 @@ def build_corpus(tier, rng):
         for s, note in G.fromstr_inputs(it, info, rng, flipcap=(4096 if thorough else 256), nrandom=4):
             c.add_q(k, "fromstr", [S.hx(s)], note=note)
             seen.add(s)
-        S.add_real_literal_inputs(c, k, it, real, seen)
+        S.add_real_literal_inputs(c, k, it, real, seen, model_summary=mstruct)
     c.rejected = rejected
     return c
 
